@@ -2,6 +2,8 @@
 and angles are compared modulo 2*pi (the notion 'describe the same rotation' needs)."""
 import math
 
+import numpy as np
+
 import z3
 
 from . import core
@@ -102,10 +104,24 @@ class Angle:
         # `if angle:`  <=> angle != 0 (mod 2 pi)
         return bool((self.s != 0) | (self.c != 1)) if is_sym(self.s) or is_sym(self.c) else not (self.s == 0 and self.c == 1)
 
-    def __lt__(self, o):
+    def _below(self, o):
+        """principal value (-pi, pi] of the angle < eps for a small positive constant eps  (the `angle < tol` guards of the library)"""
+        if isinstance(o, (int, float, Fraction)) and 0 < o < 1:
+            se = Fraction(math.sin(float(o)))
+            return (self.s < 0) | ((self.c > 0) & (self.s < se))
         raise NotEncodable("ordering of angles")
 
-    __le__ = __gt__ = __ge__ = __lt__
+    def __lt__(self, o):
+        return self._below(o)
+
+    def __ge__(self, o):
+        r = self._below(o)
+        return (not r) if isinstance(r, (bool, np.bool_)) else ~r
+
+    def __le__(self, o):
+        raise NotEncodable("ordering of angles")
+
+    __gt__ = __le__
 
     def __repr__(self):
         return "Angle(c=%r, s=%r)" % (self.c, self.s)
